@@ -246,10 +246,23 @@ class Library:
         def b_bool(x=False):
             return interp.truth(x)
 
+        def _unknown_fold(xs, name):
+            # all() / any() over a list of symbolic length given by a closed form: the value is left open (both outcomes are explored)
+            from .values import SymList
+            if isinstance(xs, SymList):
+                return SBool(z3.Bool(cur().fresh_name(name)))
+            return None
+
         def b_any(xs):
+            u = _unknown_fold(xs, "any")
+            if u is not None:
+                return u
             return sor(*list(xs)) if xs else False
 
         def b_all(xs):
+            u = _unknown_fold(xs, "all")
+            if u is not None:
+                return u
             return sand(*list(xs)) if xs else True
 
         def b_round(x, n=None):
